@@ -48,6 +48,10 @@ type c15Scen struct {
 	// chain and takes it out again afterwards (what logging and ETag filters do): the writer the Response
 	// writes to is then that wrapper
 	Swap bool `json:"filter_swaps_the_writer_inside_the_response,omitempty"`
+	// DeclaredCL: the handler sets a Content-Length header itself before its first call (a HEAD or 304
+	// answer carrying the representation's length, or simply a handler that knows its size): a declared
+	// length is not a sent length
+	DeclaredCL bool `json:"handler_sets_content_length_header,omitempty"`
 }
 
 var c15First = []string{"none", "WriteHeader", "WriteEntity", "WriteHeaderAndEntity", "WriteAsJson", "WriteAsXml", "WriteJson", "WriteHeaderAndJson", "WriteHeaderAndXml", "WriteError", "WriteErrorString", "WriteServiceError"}
@@ -94,6 +98,7 @@ func genC15(x *Ctx) *c15Scen {
 		}
 	}
 	sc.Swap = tp.Chance(150)
+	sc.DeclaredCL = tp.Chance(80)
 	if tp.Chance(30) {
 		sc.Prior = []int{3, 17, 40, 130}[tp.G(4)]
 	}
@@ -177,6 +182,9 @@ func c15Exec(sc *c15Scen, mode, failAt int) *c15Obs {
 	}
 	ws.Route(ws.GET("/k").To(func(req *restful.Request, resp *restful.Response) {
 		obs.ran = true
+		if sc.DeclaredCL {
+			resp.Header().Set("Content-Length", "1234")
+		}
 		resp.PrettyPrint(sc.Pretty)
 		for _, call := range sc.Calls {
 			before := obs.w.Fired
